@@ -12,6 +12,7 @@ import (
 	"github.com/zenon-network/go-zenon/chain/nom"
 	"github.com/zenon-network/go-zenon/common"
 	"github.com/zenon-network/go-zenon/common/types"
+	"github.com/zenon-network/go-zenon/consensus"
 	"github.com/zenon-network/go-zenon/verifier"
 	"github.com/zenon-network/go-zenon/vm"
 	"github.com/zenon-network/go-zenon/vm/abi"
@@ -19,6 +20,7 @@ import (
 	"github.com/zenon-network/go-zenon/vm/embedded/definition"
 	"github.com/zenon-network/go-zenon/vm/embedded/implementation"
 	"github.com/zenon-network/go-zenon/vm/vm_context"
+	"github.com/zenon-network/go-zenon/zenon/mock"
 )
 
 // ---------------------------------------------------------------------------------------------------
@@ -71,6 +73,8 @@ type arRun struct {
 	wedged  map[types.Address]bool
 	nRecv   int
 	histTag string
+	fast    bool  // compressed calendar
+	jumpSec int64 // added once to the timestamp of the next momentum (time-dependent methods: lock periods, epochs)
 }
 
 func (r *arRun) fail(format string, a ...interface{}) {
@@ -163,7 +167,8 @@ func (r *arRun) arMomentum() (dm *nom.DetailedMomentum, ok bool) {
 		if err != nil {
 			return
 		}
-		t := prev.Timestamp.Add(10 * time.Second)
+		t := prev.Timestamp.Add(10*time.Second + time.Duration(r.jumpSec)*time.Second)
+		r.jumpSec = 0
 		var key = keyOf(types.ZeroAddress)
 		for slot := 0; slot < 64 && key == nil; slot++ {
 			var producer *types.Address
@@ -621,20 +626,45 @@ func (r *arRun) emitAbiLine(call *arCall) {
 	abiEmitCase(r.c, arContractName(call.to), ca, call.method, call.data, false)
 }
 
+// newArNode = NewNode on a chain whose consensus epoch lasts `epoch`
+func newArNode(epoch time.Duration) *Node {
+	n0 := NewNode() // saves / restores the spork ids like every other stream
+	n0.Stop()
+	t := &hT{}
+	z := mock.NewMockZenonWithCustomEpochDuration(t, epoch)
+	silenceLoggers()
+	return &Node{Z: z, T: t, Sup: vm.NewSupervisor(z.Chain(), z.Consensus()), names: map[types.Address]string{}}
+}
+
 func init() {
 	register("autoreceive", func(c *Ctx) {
+		if sc := c.Args["scenario"]; sc != "" { // only the named scenario (replay / debugging)
+			autoreceiveHistory(c, 2, sc)
+			return
+		}
 		for i := 0; i < c.N; i++ {
-			autoreceiveHistory(c, i)
+			if v, ok := c.Args["only"]; ok && v != fmt.Sprint(i) {
+				continue
+			}
+			autoreceiveHistory(c, i, "")
+		}
+		// contract-to-contract sends whose receive fails: the refund goes to an embedded address with empty call data
+		for i, sc := range arScenarios {
+			if c.Tier == "quick" && i >= 2 && c.N < 8 {
+				break
+			}
+			autoreceiveHistory(c, 2+i%2, sc)
 		}
 	})
 }
 
-func autoreceiveHistory(c *Ctx, id int) {
+func autoreceiveHistory(c *Ctx, id int, scenario string) {
 	origGate := verifier.ReceiverMismatchEnforcementHeight
 	origAdmin := constants.InitialBridgeAdministrator
 	origAdminDelay, origSoftDelay, origUnhalt, origGuardians := constants.MinAdministratorDelay, constants.MinSoftDelay, constants.MinUnhaltDurationInMomentums, constants.MinGuardians
-	origUpdate := constants.UpdateMinNumMomentums
+	origUpdate, origFuseExp := constants.UpdateMinNumMomentums, constants.FuseExpiration
 	defer func() {
+		constants.FuseExpiration = origFuseExp
 		verifier.ReceiverMismatchEnforcementHeight = origGate
 		constants.InitialBridgeAdministrator = origAdmin
 		constants.MinAdministratorDelay, constants.MinSoftDelay, constants.MinUnhaltDurationInMomentums, constants.MinGuardians = origAdminDelay, origSoftDelay, origUnhalt, origGuardians
@@ -644,6 +674,7 @@ func autoreceiveHistory(c *Ctx, id int) {
 	// the bridge/liquidity administrator of the mock world is User5 (as in vm/embedded/tests); short time challenges
 	constants.InitialBridgeAdministrator = g.User5.Address
 	constants.MinAdministratorDelay, constants.MinSoftDelay, constants.MinUnhaltDurationInMomentums, constants.MinGuardians = 4, 2, 3, 2
+	constants.FuseExpiration = 12 // momentums (the live value is ten hours of momentums)
 	if id%2 == 1 {
 		constants.UpdateMinNumMomentums = 7 // the contracts' Update methods run (reward bookkeeping) instead of ErrUpdateTooRecent
 	}
@@ -652,10 +683,37 @@ func autoreceiveHistory(c *Ctx, id int) {
 	if v, ok := c.Args["regime"]; ok {
 		fmt.Sscan(v, &regime)
 	}
-	n := NewNode()
+	// Odd histories run on a compressed calendar (as vm/embedded/tests do with NewMockZenonWithCustomEpochDuration): an epoch
+	// is one hour and every lock period counts hours instead of days, so that lock periods end and reward epochs pass
+	// within the history (a momentum whose timestamp lies 84 real days ahead costs the consensus layer ~40 s of point
+	// generation; 84 hours cost 1.5 s).
+	fast := id%2 == 1 && scenario == ""
+	origEpoch := consensus.EpochDuration
+	origLocks := []int64{constants.PillarEpochLockTime, constants.PillarEpochRevokeTime, constants.SentinelLockTimeWindow, constants.SentinelRevokeTimeWindow,
+		constants.StakeTimeUnitSec, constants.StakeTimeMinSec, constants.StakeTimeMaxSec}
+	defer func() {
+		consensus.EpochDuration = origEpoch
+		constants.PillarEpochLockTime, constants.PillarEpochRevokeTime, constants.SentinelLockTimeWindow, constants.SentinelRevokeTimeWindow = origLocks[0], origLocks[1], origLocks[2], origLocks[3]
+		constants.StakeTimeUnitSec, constants.StakeTimeMinSec, constants.StakeTimeMaxSec = origLocks[4], origLocks[5], origLocks[6]
+	}()
+	var n *Node
+	if fast {
+		const hour = 3600
+		constants.PillarEpochLockTime, constants.PillarEpochRevokeTime, constants.SentinelLockTimeWindow, constants.SentinelRevokeTimeWindow = 83*hour, 7*hour, 27*hour, 3*hour
+		constants.StakeTimeUnitSec, constants.StakeTimeMinSec, constants.StakeTimeMaxSec = 30*hour, 30*hour, 12*30*hour
+		n = newArNode(time.Hour)
+		c.Hit("history-compressed-calendar")
+	} else {
+		n = NewNode()
+	}
 	defer n.Stop()
-	r := &arRun{c: c, n: n, id: id, regime: regime, sends: map[types.Hash]*arSend{}, wedged: map[types.Address]bool{}}
+	r := &arRun{c: c, n: n, id: id, regime: regime, fast: fast, sends: map[types.Hash]*arSend{}, wedged: map[types.Address]bool{}}
 	r.w = newArWorld(r)
+	defer func() {
+		for _, id := range r.w.declared {
+			delete(types.ImplementedSporksMap, id)
+		}
+	}()
 	c.Hit(fmt.Sprintf("history-regime-%d", regime))
 
 	for i, sp := range []*types.ImplementedSpork{types.AcceleratorSpork, types.BridgeAndLiquiditySpork, types.HtlcSpork} {
@@ -669,7 +727,14 @@ func autoreceiveHistory(c *Ctx, id int) {
 		c.Hit("spork-activated")
 	}
 	// the real worker has answered everything so far; from here on the harness drives the producer path itself
-	r.runPlan()
+	if scenario != "" {
+		c.Hit("scenario-" + scenario)
+		if r.w.setup() {
+			r.w.runScenario(scenario)
+		}
+	} else {
+		r.runPlan()
+	}
 	if r.failed {
 		return
 	}
